@@ -686,3 +686,7 @@ where
       .is_terminated()
   }
 }
+
+#[cfg(rustdds_verif)]
+#[path = "/verif/harness/incrate/access/simpledatareader.rs"]
+mod verif_access;
